@@ -298,6 +298,45 @@ func twoWriters() {
 
 // writeFile: WriteFile must leave exactly the bytes WriteTo emits in the file,
 // also when the path already holds another (longer or shorter) file.
+// oddValues: SMF values that were not made by the constructors (zero value,
+// time format given as a pointer or missing): WriteTo either fails or emits a
+// valid file, it does not report success for something else.
+func oddValues() {
+	mk := func(tf smf.TimeFormat) smf.SMF {
+		var s smf.SMF
+		s.TimeFormat = tf
+		var t smf.Track
+		t.Add(0, smf.Message([]byte{0x90, 0x3C, 0x40}))
+		t.Close(1)
+		s.Tracks = append(s.Tracks, t)
+		return s
+	}
+	tc := smf.TimeCode{FramesPerSecond: 25, SubFrames: 40}
+	mt := smf.MetricTicks(96)
+	for name, s := range map[string]smf.SMF{"zero-value-no-time-format": mk(nil), "pointer-to-timecode": mk(&tc), "pointer-to-metric-ticks": mk(&mt), "metric-ticks-0": mk(smf.MetricTicks(0))} {
+		ctx.Eval()
+		ctx.Add("odd_values", 1)
+		var w countWriter
+		var n int64
+		var err error
+		c := engine.Catch(func() { n, err = s.WriteTo(&w) })
+		out := w.buf.Bytes()
+		switch {
+		case c.Panicked:
+			ctx.Violation(c.Sig+":odd-value:"+name, map[string]interface{}{"kind": "odd-value", "value": name, "what": "WriteTo panicked: " + c.Value})
+		case err != nil:
+			// refused: fine
+		case n != int64(len(out)):
+			ctx.Violation("size:odd-value:"+name, map[string]interface{}{"kind": "odd-value", "value": name, "what": fmt.Sprintf("reported size %d, emitted %d bytes", n, len(out))})
+		default:
+			if _, perr := refsmf.Parse(out, refsmf.Strict); perr != nil {
+				ctx.Violation("strict:rejected:odd-value:"+name, map[string]interface{}{"kind": "odd-value", "value": name,
+					"what": "WriteTo reported success but the strict parser rejects the output: " + perr.Error() + " bytes=" + engine.Hex(clip(out))})
+			}
+		}
+	}
+}
+
 func writeFile() {
 	dir, err := os.MkdirTemp(os.Getenv("VERIF_WORK"), "c03-writefile-")
 	if err != nil {
@@ -401,7 +440,7 @@ func main() {
 			}
 		})
 	})
-	ctx.Jobs("writefile", 1, func(int) { writeFile(); twoWriters() })
+	ctx.Jobs("writefile", 1, func(int) { writeFile(); twoWriters(); oddValues() })
 	const parts = 32
 	ctx.Jobs("vlq", parts, func(j int) {
 		step := uint64(1<<28) / parts
@@ -438,6 +477,9 @@ func replay() {
 	case "vlq":
 		n := uint64(m["value"].(float64))
 		vlqRange(n, n+1)
+		ctx.Finish("replay")
+	case "odd-value":
+		oddValues()
 		ctx.Finish("replay")
 	case "writefile":
 		writeFile()
